@@ -265,6 +265,14 @@ Fixpoint dup_errors (seen : list bytes) (es : list entry) : list fluent_error :=
       end
   end.
 
+(* the key set after the entries `es` have been processed (first occurrence order) *)
+Definition seen_after (seen : list bytes) (es : list entry) : list bytes :=
+  fold_left (fun sn kd => if bmem (fst kd) sn then sn else sn ++ [fst kd]) (defs_of es) seen.
+
+(* `if errors.is_empty() { Ok(()) } else { Err(errors) }` *)
+Definition result_of (errs : list fluent_error) : result unit (list fluent_error) :=
+  match errs with [] => Ok tt | _ => Err errs end.
+
 (* abstraction: what each stored reference denotes, given the resource list *)
 Definition deref (rs : list resource) (e : entry_ref) : option def :=
   match e with
